@@ -197,7 +197,17 @@ func init() {
 	})
 }
 
+// runC15: most cases run alone; some run as 2-3 concurrent sessions of the
+// same case shape in one process (package-level state in the code under test).
 func runC15(cs *vrt.Case) {
+	if cs.Idx%4 == 3 {
+		cs.Twins(2+(cs.Idx/7)%2, func(sub *vrt.Case, _ *vrt.Rng) { runC15One(sub) })
+		return
+	}
+	runC15One(cs)
+}
+
+func runC15One(cs *vrt.Case) {
 	r := cs.Rng
 	th := cs.Thorough()
 	var kind, part, parts int
